@@ -272,6 +272,86 @@ def r16_eq_hash(ctx):
                   "%s is self._cmp(other, %r)" % (name, name.strip("_")),
                   "%s does not route to self._cmp(other, %r): %s" % (
                       name, name.strip("_"), detail), P02)
+    # key projections: the time of day enters comparison and hash keys only
+    # through the precision-independent getters, the date through one fixed
+    # date getter (never raw slots / properties, which differ between
+    # hh:mm:ss, hh:mm,nn and hh,ii forms of the same instant)
+    CANON_TIME = {"get_second_of_day", "get_hour_minute_second"}
+    CANON_DATE = {"get_calendar_date", "get_ordinal_date", "get_week_date"}
+    RAW_TIME = {"_hour_of_day", "_minute_of_hour", "_second_of_minute",
+                "hour_of_day", "minute_of_hour", "second_of_minute",
+                "hour_of_day_decimal_string", "minute_of_hour_decimal_string",
+                "second_of_minute_decimal_string"}
+    RAW_DATE = {"_year", "_month_of_year", "_day_of_month", "_day_of_year",
+                "_week_of_year", "_day_of_week", "year", "month_of_year",
+                "day_of_month", "day_of_year", "week_of_year", "day_of_week"}
+    hf = tp.methods.get("__hash__")
+    if hf is not None:
+        keys = [h for h in hashed_exprs(hf) if isinstance(h, ast.Tuple)]
+        for h in keys:
+            raw, getters = [], []
+            for x in ast.walk(h):
+                if isinstance(x, ast.Attribute) and isinstance(
+                        x.ctx, ast.Load):
+                    par = parent(x)
+                    is_call = isinstance(par, ast.Call) and par.func is x
+                    if x.attr in RAW_TIME | RAW_DATE and not is_call:
+                        raw.append(x.attr)
+                    if is_call and x.attr in CANON_TIME | CANON_DATE:
+                        getters.append(x.attr)
+            okh = not raw and any(g in CANON_TIME for g in getters) and any(
+                g in CANON_DATE for g in getters)
+            rep.check(okh, rule, ctx.fkey(hf, None, "canonical-key"),
+                      hf.loc(h),
+                      "the hashed key is built from %s" % getters,
+                      "TimePoint.__hash__ hashes %s: raw fields differ "
+                      "between precision forms / representations of one "
+                      "instant (12:30 vs 12,5) although == compares them "
+                      "equal; the key must come from get_*_date() and "
+                      "get_hour_minute_second()/get_second_of_day()" % (
+                          raw or getters), P02)
+    if cmpf is not None:
+        lists = [n for n in walk_no_nested(cmpf.node)
+                 if isinstance(n, ast.Assign) and isinstance(
+                     n.value, (ast.List, ast.Tuple)) and any(
+                         isinstance(e, ast.Call) for e in n.value.elts)]
+        shapes = []
+        for n in lists:
+            shape = []
+            for e in n.value.elts:
+                inner = e.value if isinstance(e, ast.Starred) else e
+                if isinstance(inner, ast.Call) and isinstance(
+                        inner.func, ast.Attribute):
+                    shape.append("call:" + inner.func.attr)
+                elif isinstance(inner, ast.Name):
+                    # a date tuple obtained from a getter
+                    ds = [d for d in walk_no_nested(cmpf.node)
+                          if isinstance(d, ast.Assign) and any(
+                              U(t) == inner.id for t in d.targets)]
+                    gs = sorted({d.value.func.attr for d in ds if isinstance(
+                        d.value, ast.Call) and isinstance(
+                            d.value.func, ast.Attribute)})
+                    shape.append("date:" + "/".join(gs))
+                elif isinstance(inner, ast.Attribute):
+                    shape.append("raw:" + inner.attr)
+                else:
+                    shape.append("?")
+            shapes.append(shape)
+        if shapes:
+            same = all(s == shapes[0] for s in shapes)
+            canon = all(all(
+                (p.startswith("call:") and p[5:] in CANON_TIME | CANON_DATE)
+                or (p.startswith("date:") and set(p[5:].split("/")) <=
+                    CANON_DATE) for p in s) for s in shapes)
+            rep.check(same and canon and len(shapes) >= 2, rule,
+                      ctx.fkey(cmpf, None, "key-shape"), cmpf.loc(),
+                      "both comparison keys are (date getter..., "
+                      "second-of-day) built the same way: %s" % shapes[0],
+                      "TimePoint._cmp builds its two keys as %s: both must "
+                      "use the same date getter and a precision-independent "
+                      "time getter" % shapes, P02)
+        else:
+            rep.error("R16", "TimePoint._cmp: comparison keys not found")
     for bad in ("__ne__", "__cmp__"):
         rep.check(bad not in tp.methods, rule,
                   ctx.mkey("data", "TimePoint." + bad + ":absent"), "-",
